@@ -5,7 +5,13 @@ impl cbor_event::se::Serialize for HeaderBody {
         &self,
         serializer: &'se mut Serializer<W>,
     ) -> cbor_event::Result<&'se mut Serializer<W>> {
-        serializer.write_array(cbor_event::Len::Len(15))?;
+        // the operational cert (4) and protocol version (2) are written as embedded groups;
+        // the leader certificate is one VRF result or, in the legacy form, two VRF certs
+        let len = match &self.leader_cert {
+            HeaderLeaderCertEnum::NonceAndLeader(_, _) => 15,
+            HeaderLeaderCertEnum::VrfResult(_) => 14,
+        };
+        serializer.write_array(cbor_event::Len::Len(len))?;
         self.block_number.serialize(serializer)?;
         self.slot.serialize(serializer)?;
         match &self.prev_hash {
